@@ -3,7 +3,7 @@
 import ast
 
 from py2lean_types import (Unsupported, Impure, TInt, TBool, TStr, TNone, TRange, TErased, TList, TOpt, TTuple,
-                           TDict, TObj, TAbs, TExc, TUnion, TVar, TMaybe, TBuilder, INT, BOOL, STR, NONE, RANGE, ERASED,
+                           TDict, TObj, TAbs, TExc, TUnion, TVar, TMaybe, TBuilder, TEffect, INT, BOOL, STR, NONE, RANGE, ERASED,
                            resolve, unify, join, coerce, proj, iter_elem)
 from py2lean_expr import src, indent, EXC, TyRef
 
@@ -91,7 +91,10 @@ class StmtMixin:
                 return self.finish_return(*env["self"])
             return self.finish_return("()", NONE)
         if self.effect_self:
-            raise Unsupported("a procedure on an effect object returning a value")
+            if not isinstance(resolve(env["self"][1]), TEffect):
+                raise Unsupported("a procedure on an effect object returning a value")
+            sc, st = env["self"]
+            return self.expr(s.value, env, lambda c, t: self.finish_return("({}, {})".format(c, sc), TTuple([t, st])))
         return self.expr(s.value, env, self.finish_return)
 
     def finish_return(self, c, t):
@@ -118,6 +121,13 @@ class StmtMixin:
         v = s.value
         if isinstance(v, ast.Constant):          # docstring
             return nxt(env)
+        if isinstance(v, ast.Call) and isinstance(v.func, ast.Name) and v.func.id in EXC:
+            return nxt(env)                      # an exception object that is built and dropped (no `raise`)
+        if isinstance(v, ast.Call) and isinstance(v.func, ast.Attribute) and isinstance(v.func.value, ast.Attribute) \
+                and src(v.func.value.value) == "self" and v.func.value.attr in self.erased_attrs:
+            return nxt(env)                      # bookkeeping on an attribute the translation erases
+        if self.effect_call_parts(v, env) is not None and not (self.effect_self and isinstance(resolve(env["self"][1]), TBuilder)):
+            return self.effect_stmt(v, None, env, nxt)
         if isinstance(v, ast.Yield) and v.value is not None and "«yield»" in env:
             # generator function: the yielded values are collected in order (laziness is not modelled)
             nm, t = env["«yield»"]
@@ -311,6 +321,18 @@ class StmtMixin:
             raise Unsupported("chained assignment")
         target = s.targets[0]
         v = s.value
+        # effect objects: creation, another name for the same object, a method call with a result
+        new = self.effect_new(v, env)
+        if new is not None and isinstance(target, ast.Name):
+            env2 = dict(env)
+            nm = self.lname(target.id)
+            env2[target.id] = (nm, new[1])
+            return "let {} := {}\n{}".format(nm, new[0], nxt(env2))
+        if isinstance(target, ast.Name) and isinstance(v, (ast.Name, ast.Attribute)) and self.effect_key(v, env) is not None:
+            self.effect_alias[target.id] = self.effect_key(v, env)
+            return nxt(env)
+        if self.effect_call_parts(v, env) is not None and not (self.effect_self and isinstance(resolve(env["self"][1]), TBuilder)):
+            return self.effect_stmt(v, target, env, nxt)
         # x = lst.pop()
         if isinstance(v, ast.Call) and isinstance(v.func, ast.Attribute) and v.func.attr == "pop" \
                 and not v.args and src(v.func.value) in env:
@@ -467,8 +489,30 @@ class StmtMixin:
         return "let {} := ({})\n{}".format(st, code, tail)
 
     # ------------------------------------------------------------ if
+    def canon_names(self, names, env):
+        out = []
+        for n in names:
+            if n in self.effect_alias:
+                n = self.effect_alias[n]
+            if n.startswith("self.") and n[5:] in self.self_aliases:
+                n = "self"
+            if n not in out:
+                out.append(n)
+        return out
+
     def s_If(self, s, env, nxt):
-        names = assigned_names(s.body + s.orelse)
+        names = self.canon_names(assigned_names(s.body + s.orelse), env)
+        # a test decided by the declared types (isinstance on an object of known class): only the live branch exists
+        try:
+            p0 = self.pure_prop(s.test, env)
+        except (Impure, Unsupported):
+            p0 = None
+        if p0 is not None:
+            p0 = p0.replace("(¬ True)", "False").replace("(¬ False)", "True")
+            if p0 == "True":
+                return self.block(s.body, env, nxt)
+            if p0 == "False":
+                return self.block(s.orelse, env, nxt)
         # label plumbing: an `if` that only assigns erased variables is skipped (its test must be pure)
         if names and all(n in env and isinstance(env[n][1], TErased) for n in names) and self.only_assigns(s):
             return nxt(env)
@@ -508,7 +552,7 @@ class StmtMixin:
         for n in ast.walk(s):
             if isinstance(n, (ast.Return, ast.Break, ast.Continue)):
                 raise Unsupported("return / break / continue inside a loop")
-        state = [n for n in assigned_names(s.body) if n in env]
+        state = [n for n in self.canon_names(assigned_names(s.body), env) if n in env]
         for n in state:
             self.check_mutable(n) if isinstance(resolve(env[n][1]), (TList, TDict)) else None
 
